@@ -106,7 +106,7 @@ pub fn run_scenario(out: &mut Out, sc: Scenario) {
             for (c, d) in burst {
                 rig.send(*c, d);
             }
-            rig.process();
+            rig.process_burst(burst.len());
             replies.extend(rig.drain());
         }
         // a straggler pass: nothing may arrive any more
